@@ -99,6 +99,13 @@ SHAPES = {
     "in-noncanon-trim-update": ["assert 3 in snapshot([0x10, 0x3])"],
     "sub-noncanon-trim-update": ["s = snapshot({'a': 0x10, 'b': 0x3})", "assert s['b'] == 3"],
     "eq-delete-and-insert": ["assert [0, 2, 9] == snapshot([1, 2, 3, 4])"],
+    "inner-two-deleted": ["assert [1] == snapshot([1, snapshot(1 + 1), snapshot(2 + 2)])"],
+    "inner-never-compared-two-leaves-deleted": ["assert [1] == snapshot([1, snapshot([1 + 1, 2 + 2])])"],
+    "inner-three-in-replaced-parent": ["assert 5 == snapshot([snapshot(1 + 1), [snapshot(2 + 2)], {'k': snapshot(3 + 3)}])"],
+    "dict-value-parens-insert": ["s = snapshot({'a': ('x' 'y'), 'b': 2})", "assert s['c'] == 3", "assert s['a'] == 'xy'"],
+    "dict-key-parens-delete": ["assert {'b': 2} == snapshot({('a'): 1, 'b': 2})"],
+    "dict-value-parens-only-entry": ["assert {'a': 'xy', 'c': 1} == snapshot({'a': ('x' 'y')})"],
+    "list-parens-mixed": ["assert [1, 3] == snapshot([(1), 2, (3)])"],
     # externals (storage is touched in the finish phase)
     "outsource-create": ["assert outsource('data-x') == snapshot()"],
     "outsource-create-and-trim": ["assert outsource('data-y') == snapshot()", "assert 5 in snapshot([5, 6])"],
